@@ -383,3 +383,96 @@ def stopped_early(model, X, params, last_gain):
         return (f"fitting stopped after a split of positive gain {float(last_gain):.6g} with {len(ids)} leaves (limit {maxl}) although the leaves "
                 f"{explorable} (id, samples, depth) may still be explored")
     return None
+
+
+# ------------------------------------------------------------------ deep trees (more leaves than any fixed block size), floating point
+def Jf(kern, labels):
+    """kernel-KMeans objective sum_k sigma(C_k x C_k)/|C_k| in floating point (vectorised; for the sizes at which the exact
+    pipeline is too slow).  With an integer kernel every stock is exact, only the divisions round."""
+    labels = np.asarray(labels)
+    tot = 0.0
+    for v in np.unique(labels):
+        idx = np.flatnonzero(labels == v)
+        tot += float(kern[np.ix_(idx, idx)].sum()) / len(idx)
+    return tot
+
+
+def run_traced_fit(X, kern, params, exact=False):
+    """real Kauri.fit on the transliterated current find_best_split (floating point by default); at every call the part of
+    the state the algorithm reads (first n_leaves rows of Z, the matching columns of Y) is copied.
+    Returns dict(model, score, pred, calls=[dict(Y, Z, nl, ncl, split=(gain, leaf, lt, rt, feat, thr))])"""
+    import gemclus.tree.kauri as K
+    from gemclus.tree import Kauri
+    mx = translit(exact)
+    conv = to_q_array if exact else (lambda a: a)
+    calls = []
+
+    def fbs(kernel, Xa, lte, Y, Z, ncl, Kmax, nl, ml, feats):
+        rec = {"Y": np.array(np.asarray(Y)[:, :nl]).astype(int), "Z": np.array(np.asarray(Z)[:nl]).astype(int), "nl": int(nl),
+               "ncl": int(ncl), "explore": [int(e) for e in lte]}
+        s = mx.find_best_split(conv(kernel), Xa, lte, conv(Y), conv(Z), ncl, Kmax, nl, ml, feats)
+        rec["split"] = (s.gain, int(s.leaf), int(s.left_target), int(s.right_target), int(s.feature), float(s.threshold))
+        calls.append(rec)
+        return s
+    old = K.find_best_split, K.gemini_objective
+    K.find_best_split = fbs
+    K.gemini_objective = lambda y_pred, kernel: mx.gemini_objective(y_pred, conv(kernel))
+    try:
+        model = Kauri(**params).fit(X, kern)
+        score = model.score(X, kern)
+        pred = model.predict(X)
+    finally:
+        K.find_best_split, K.gemini_objective = old
+    return {"model": model, "score": score, "pred": pred, "calls": calls}
+
+
+def traced_fit_errors(X, kern, h, rtol=1e-8):
+    """C08 on a whole (possibly deep) fit, from the property text, in floating point with a relative tolerance:
+    at every step every sample sits in exactly one leaf and every leaf in exactly one cluster; the gain of the chosen split
+    is the increase of the objective obtained by applying that split (recomputed from the labels before / after); the state
+    of the next step IS the state after that split; root score + sum of recorded gains = objective of labels_ = score.
+    Returns [(key, message)]."""
+    bad = []
+    n = len(X)
+    model = h["model"]
+    states = []
+    for t, c in enumerate(h["calls"]):
+        memb = c["Z"].sum(0)
+        if not (memb == 1).all():
+            who = np.flatnonzero(memb != 1)
+            bad.append(("membership", f"step {t} ({c['nl']} leaves): the samples {who[:8].tolist()}{'...' if len(who) > 8 else ''} sit in "
+                                      f"{memb[who[:8]].tolist()} leaves instead of exactly one"))
+            return bad
+        if not (c["Y"].sum(0) == 1).all():
+            bad.append(("leaf-cluster", f"step {t}: a leaf does not belong to exactly one cluster"))
+            return bad
+        leaf = c["Z"].argmax(0)
+        states.append((leaf, c["Y"].argmax(0)[leaf]))
+    final = np.asarray(model.labels_)
+    for t, c in enumerate(h["calls"]):
+        gain, lf, lt, rt, feat, thr = c["split"]
+        gain = float(gain)
+        if not gain > 0:
+            continue
+        leaf, lab = states[t]
+        after = lab.copy()
+        mem = np.flatnonzero(leaf == lf)
+        after[mem] = np.where(X[mem, feat] <= thr, lt, rt)
+        j0, j1 = Jf(kern, lab), Jf(kern, after)
+        if abs((j1 - j0) - gain) > rtol * max(1.0, abs(j0), abs(j1)):
+            bad.append(("gain-not-real", f"step {t} ({c['nl']} leaves): reported gain {gain:.9g} but applying the split (leaf {lf}, feature {feat} <= "
+                                         f"{thr!r}, targets {lt}/{rt}) changes the objective by {j1 - j0:.9g}"))
+            return bad
+        nxt = states[t + 1][1] if t + 1 < len(states) else final
+        if not np.array_equal(nxt, after):
+            bad.append(("state-after-split", f"step {t} ({c['nl']} leaves): the clusters after the step differ from the chosen split applied to the "
+                                             f"clusters before it on the samples {np.flatnonzero(nxt != after)[:8].tolist()}"))
+            return bad
+    root = Jf(kern, np.zeros(n, dtype=int))
+    jfin = Jf(kern, final)
+    tot = float(sum(float(g) for g in model.tree_.gains))
+    if abs(root + tot - jfin) > rtol * max(1.0, abs(root), abs(jfin)):
+        bad.append(("telescope", f"root score {root:.9g} + sum of recorded gains {tot:.9g} = {root + tot:.9g} != objective of labels_ {jfin:.9g}"))
+    if abs(float(h["score"]) - jfin) > rtol * max(1.0, abs(jfin)):
+        bad.append(("score", f"score {float(h['score']):.9g} != objective of labels_ {jfin:.9g}"))
+    return bad
